@@ -339,6 +339,15 @@ def bisect_unsorted(model: Model, fn: FunctionInfo) -> list[Lint]:
 
         seq = unsorted_source(arg)
         if seq is not None:
+            # a hit that is verified and a miss that falls back on a scan of the same sequence make the search an
+            # optimisation only: what it finds is right, what it misses is found by the scan
+            later_scan = any(
+                isinstance(x, (ast.GeneratorExp, ast.ListComp, ast.For)) and getattr(x, "lineno", 0) > n.lineno and any(ast.unparse(it) == seq for it in ([g.iter for g in x.generators] if not isinstance(x, ast.For) else [x.iter]))
+                for x in ast.walk(fn.node)
+            )
+            verified = any(isinstance(x, ast.Compare) and getattr(x, "lineno", 0) > n.lineno and any(isinstance(o, ast.Eq) for o in x.ops) and any(isinstance(y, ast.Subscript) and ast.unparse(y.value) == seq for y in ast.walk(x)) for x in ast.walk(fn.node))
+            if later_scan and verified:
+                continue
             out.append(Lint("bisect-unsorted", fn, n.lineno, seq.rsplit(".", 1)[-1], f"`{name}({ast.unparse(n.args[0])[:60]}, ...)`: binary search over `{seq}`, which is not kept sorted (add_record appends new records at the end; synonym lists are sorted only by _merge / add_prefix): present entries are missed or the wrong one is hit"))
     out += _handwritten_bisect(fn)
     return out
@@ -641,6 +650,42 @@ def last_iteration_flag(model: Model, fn: FunctionInfo) -> list[Lint]:
     return out
 
 
+def unbound_after_loop(model: Model, fn: FunctionInfo) -> list[Lint]:
+    """A name that only the loop binds (its target, or an assignment in its body) and that is read AFTER the loop:
+    for an empty iterable the loop body never runs and the read raises UnboundLocalError / NameError."""
+    out: list[Lint] = []
+    params = {p.name for p in fn.params}
+    for lp in ast.walk(fn.node):
+        if not isinstance(lp, (ast.For, ast.AsyncFor)):
+            continue
+        end = lp.end_lineno or lp.lineno
+        bound_in_loop = {n.id for n in ast.walk(lp.target) if isinstance(n, ast.Name)}
+        for name in sorted(bound_in_loop - params):
+            before = any(isinstance(n, ast.Name) and n.id == name and isinstance(n.ctx, ast.Store) and n.lineno < lp.lineno for n in ast.walk(fn.node))
+            # other bindings (imports, with/except targets, nested defs) before the loop
+            before = before or any(isinstance(n, (ast.FunctionDef, ast.ClassDef)) and n.name == name and n.lineno < lp.lineno for n in ast.walk(fn.node))
+            if before:
+                continue
+            # reads in an inner scope that binds the name itself (a comprehension target, a lambda / nested function
+            # parameter) are not reads of the loop's name
+            shadowed = set()
+            for sc in ast.walk(fn.node):
+                binds = set()
+                if isinstance(sc, (ast.ListComp, ast.SetComp, ast.DictComp, ast.GeneratorExp)):
+                    binds = {x.id for g in sc.generators for x in ast.walk(g.target) if isinstance(x, ast.Name)}
+                elif isinstance(sc, ast.Lambda) or (isinstance(sc, (ast.FunctionDef, ast.AsyncFunctionDef)) and sc is not fn.node):
+                    a_ = sc.args
+                    binds = {q.arg for q in a_.posonlyargs + a_.args + a_.kwonlyargs} | {q.arg for q in (a_.vararg, a_.kwarg) if q is not None}
+                if name in binds:
+                    shadowed.update(id(x) for x in ast.walk(sc) if isinstance(x, ast.Name) and x.id == name)
+            reads = [n for n in ast.walk(fn.node) if isinstance(n, ast.Name) and n.id == name and isinstance(n.ctx, ast.Load) and n.lineno > end and id(n) not in shadowed]
+            # a later rebinding in front of the read (another loop over the same name, an assignment) makes it bound
+            reads = [n for n in reads if not any(isinstance(m_, ast.Name) and m_.id == name and isinstance(m_.ctx, ast.Store) and end < m_.lineno <= n.lineno for m_ in ast.walk(fn.node))]
+            if reads and not lp.orelse:
+                out.append(Lint("unbound-after-loop", fn, reads[0].lineno, name, f"`{name}` is bound only by the loop at line {lp.lineno} and read after it (line {reads[0].lineno}): when the iterable is empty the loop never binds it and the read raises UnboundLocalError"))
+    return out
+
+
 def scan(model: Model, files: set[str] | None = None) -> tuple[list[Lint], int]:
     """All lints for the functions defined in ``files`` (relative paths under src/curies; None = everything)."""
     out: list[Lint] = []
@@ -657,4 +702,5 @@ def scan(model: Model, files: set[str] | None = None) -> tuple[list[Lint], int]:
         out += iterable_param_reuse(model, fn)
         out += global_mutable_leak(model, fn)
         out += last_iteration_flag(model, fn)
+        out += unbound_after_loop(model, fn)
     return out, n
